@@ -152,7 +152,13 @@ CmtPos(lv) ==
 Words(lv) == LET ws == SelectSeq(lv, LAMBDA x : WordCount(x) > 0 /\ x.k \notin {"Str", "Raw"})
              IN FoldLeft(LAMBDA acc, x : IF x.k = "Text" THEN acc \o [j \in 1..Len(x.ws) |-> <<"W", x.ws[j]>>]
                                          ELSE Append(acc, <<x.k, x.t>>), <<>>, ws)
-R06(e) == CmtPos(e.pin.lv) = CmtPos(e.pout.lv) /\ Words(e.pin.lv) = Words(e.pout.lv)
+(* with import reordering on, the words of import items are permuted (C19 decides how): the word streams are
+   then compared as bags; a comment's word position is unaffected because an import that holds a comment keeps
+   its order *)
+WordBag(ws) == [x \in {ws[i] : i \in 1..Len(ws)} |-> Cardinality({i \in 1..Len(ws) : ws[i] = x})]
+R06(e) == /\ CmtPos(e.pin.lv) = CmtPos(e.pout.lv)
+          /\ IF e.ro THEN WordBag(Words(e.pin.lv)) = WordBag(Words(e.pout.lv))
+             ELSE Words(e.pin.lv) = Words(e.pout.lv)
 
 (***************************************************************************)
 (* R08 — prose: lockstep walk over the children of corresponding Markup    *)
@@ -226,7 +232,9 @@ R11(e) == LET ls == e.lines IN
 (* multiple of the unit.  Continuation lines of multi-line comments,       *)
 (* strings, raw text and disabled regions are exempt.                      *)
 (***************************************************************************)
-Exempt(e, i) == \E j \in 1..Len(e.ml) : e.ml[j].a < i /\ i <= e.ml[j].b
+(* exempt: inside a multi-line token / disabled node of the re-parsed output, or a line copied verbatim from a
+   disabled node of the INPUT (when the verbatim region changes the nesting, the output tree no longer shows it) *)
+Exempt(e, i) == e.lines[i].cp \/ \E j \in 1..Len(e.ml) : e.ml[j].a < i /\ i <= e.ml[j].b
 R12a(e) == e.tab = 0 \/ \A i \in 1..Len(e.lines) :
               e.lines[i].n = 0 \/ Exempt(e, i) \/ e.lines[i].ind % e.tab = 0
 
